@@ -31,6 +31,22 @@ CLAIMED = {
          "Theorems C12_ids_unique_in_result / C12_ids_unique / C12_positional_ids_injective hold for every result tree and result lists of any size under the stated shape condition wf_et (keys without underscore that are not numerals, sibling tokens distinct i.e. at most one array-valued field with typed elements), C12_ids_refuted_two_arrays shows the condition is needed; C12_focus_grounded / C12_validate_ids_unique hold for every profile and graph of the model. The harness checks the same predicates on real reports and the id lists against the extracted model.",
          "Trusted: Coq kernel; the shape of the objects error()/trace() build (measured: the harness derives the typed tree from the real report and checks wf_et on it); non-emptiness of messages and traces is checked on real reports only (no theorem); translator; extraction.",
          "DESIGN.md section 5 C12"),
+ "C04": ("Coq proof over the pipeline model (control flow of validate.go / process_input.go with stage oracles): for every fault assignment (3^7, enumerated and checked inside Coq) and, at the function level, for all oracles, texts, compiled profiles, documents and configurations, data that cannot be decoded or that JSON-LD processing rejects (error or panic) never yields a report from a validating entry point + regenerated control-flow skeletons (tie) + differential run: not-JSON texts, encodings, truncations of valid documents, JSON-LD-rejected documents x four entry points and the acv binary, alone and in histories after a readable document",
+         "Theorems C04_no_report (all entry points x all fault assignments), C04_validate_compiled and C04_validate (all stage oracles, inputs, configurations).",
+         "Trusted: Coq kernel; `no complete JSON value can be read` is json.Decoder.Decode failing and `JSON-LD rejects` is json-gold's Flatten or Index panicking/erroring (oracles; which inputs they reject is measured, not proved); translator; extraction.",
+         "DESIGN.md section 5 C04"),
+ "C09": ("Coq proof over the pipeline model with stage oracles as functions: ValidateWithConfiguration is CompileProfile followed by ValidateCompiledWithConfiguration (same result, events = profile stages ++ data stages), and for every history of documents through one compiled profile each result equals the fresh validation from the profile text (induction-free map equality; position irrelevance) + regenerated skeletons (tie) + differential run: random histories through one compiled profile with other compilations interleaved, byte-compared with fresh validations made before and after",
+         "Theorems C09_equiv / C09_events / C09_reusable / C09_position_irrelevant hold for all oracles, texts, documents, configurations and histories. The part of the property that lives in the Go heap (in-place mutation of result maps, shared default context, engine caches, the Genvar counter) cannot be exhibited by a model whose stages are pure functions; it is decided by the histories run against the real library.",
+         "PARTIAL: the theorems cover the control-flow skeleton with pure stage oracles; heap aliasing / shared package state are runtime behaviour covered only by the correspondence run. Trusted: Coq kernel; OPA's PreparedEvalQuery.Eval being a function of (query, input); translator; extraction.",
+         "DESIGN.md section 5 C09"),
+ "C11": ("Coq proof over the pipeline model: for every entry point (Validate*, ValidateCompiled*, CompileProfile, CompileProfile-then-ValidateCompiled) and every fault assignment (3^7 enumerated inside Coq), the events sent are a prefix of the stage order, well-bracketed, the channel is closed exactly once at the end on success and on every failure, CompileProfile closes iff it fails; milestones of a bracketed sequence are one per completed stage with non-negative duration (induction over stage lists) + regenerated control-flow skeletons of all 19 functions involved (tie) + exhaustive differential run over every input-reachable failure point x entry point with a recording consumer",
+         "Theorems C11_trace_meets_spec / C11_prefix / C11_bracketed / C11_close_once / C11_compile / C11_sends_are_stage_pairs for all entry points and fault assignments with the explicit premise engine_total (the two engine calls that run without recover do not panic); C11_milestones / C11_milestone_durations for stage lists of any length; C11_refuted_without_recover for the repaired defect.",
+         "Trusted: Coq kernel; Go channel semantics (send blocks until received, close once); the premise engine_total (OPA's PrepareForEval and Eval do not panic) is an explicit hypothesis; translator; extraction.",
+         "DESIGN.md section 5 C11"),
+ "C17": ("Coq proof over the pipeline model with a Panic outcome at every stage: with the recover at the three stage functions no entry point lets a panic escape and the channel is always closed (all entry points x 3^7 fault assignments), the only escape being a panic of the two engine calls (C17_escapes_only_from_engine); ParsePath model total + regenerated skeletons incl. recoverAsError and `defer` sites (tie) + fuzz-style differential run under recover with a wall-clock bound: failure-point pools, node-less documents must conform, structured mutations and raw bytes through all entry points",
+         "Theorems C17_total / C17_escapes_only_from_engine / C17_never_blocks_consumer for all entry points and fault assignments; C17_refuted_without_recover. Termination and panic-freedom of yaml.v3, encoding/json, json-gold and OPA are not provable here: the theorem takes their behaviour as stage outcomes (value / error / panic) and the run observes it.",
+         "PARTIAL: library termination, stack exhaustion, OOM and blocking inside libraries are runtime behaviour observed under a wall-clock bound, not proved. Trusted: Coq kernel; Go's recover semantics (a deferred function calling recover directly); translator; extraction.",
+         "DESIGN.md section 5 C17"),
 }
 WIP = "check not built yet in this session (work in progress; see DESIGN.md section 9 for the order of work)"
 
